@@ -3,6 +3,7 @@ import JivaVerif.Drv.Controller
 import JivaVerif.Drv.Rpc
 import JivaVerif.Drv.Rest
 import JivaVerif.Drv.Crash
+import JivaVerif.Drv.Cluster
 import JivaVerif.Model.Locks
 import JivaVerif.Generated.Locks
 def main (args : List String) : IO Unit := do
@@ -12,6 +13,7 @@ def main (args : List String) : IO Unit := do
   | ["rpc"] => Jiva.Drv.rpcMain
   | ["rest"] => Jiva.Drv.restMain
   | ["crash"] => Jiva.Drv.crashMain
+  | ["cluster"] => Jiva.Drv.clusterMain
   | ["locks"] =>
     -- the lock-event sequences the checker rejects, with the names of the locks (for the replay of C14)
     let evName := fun (k : Nat) => ["Lock", "Unlock", "RLock", "RUnlock", "call-of-a-function-that-Locks", "call-of-a-function-that-RLocks"].getD k "?"
@@ -20,4 +22,4 @@ def main (args : List String) : IO Unit := do
       IO.println (f ++ ": " ++ " ; ".intercalate (p.map fun e => evName e.1 ++ " " ++ Jiva.Gen.lockNames.getD e.2 "?"))
     for s in Jiva.Gen.lockSkipped do IO.println ("not analysed: " ++ s)
     IO.println s!"functions={Jiva.Gen.lockPaths.length} sequences={(Jiva.Gen.lockPaths.map (·.2.length)).sum} rejected={off.length}"
-  | _ => IO.eprintln "usage: drv replica|ctl|rpc|rest|crash|locks"
+  | _ => IO.eprintln "usage: drv replica|ctl|rpc|rest|crash|cluster|locks"
